@@ -590,6 +590,7 @@ pub fn run(tier: Tier, totals: &mut Totals) {
     totals.extra.insert("search".into(), json!({"levels": r.levels, "fixpoint": r.fixpoint, "states": r.states, "transitions": r.transitions}));
     into_totals(&r, totals);
     path_functions(totals);
+    scale(tier, totals);
     // remove the per-thread scratch directories
     if let Ok(rd) = std::fs::read_dir(scratch_root()) {
         for e in rd.flatten() {
@@ -600,7 +601,58 @@ pub fn run(tier: Tier, totals: &mut Totals) {
     }
 }
 
+/// Contents far larger than the three short texts of the search: sizes around the usual buffer
+/// boundaries, a multi-byte character sitting on such a boundary, a megabyte.
+fn scale(tier: Tier, totals: &mut Totals) {
+    let dir = scratch_root().join(format!("c18-scale-{}", std::process::id()));
+    let _ = std::fs::remove_dir_all(&dir);
+    let _ = std::fs::create_dir_all(&dir);
+    let d = dir.to_string_lossy().to_string();
+    let sizes: Vec<usize> = tier.pick(vec![4095, 8192, 8193, 65537], vec![4095, 4096, 8191, 8192, 8193, 65535, 65536, 65537, 1_000_003, 5_000_001]);
+    for (variant, &n) in sizes.iter().flat_map(|n| [(0u8, n), (1u8, n)]) {
+        // the text is built by doubling a 16-character block and cut to size; variant 1 puts an e-acute
+        // (two bytes) so that it straddles byte n/2
+        let mut text = String::from("s = set 0123456789abcdef\nwhile less_than ${len} NEED\ns = set ${s}${s}\nlen = length ${s}\nend\n").replace("NEED", &(n + 1).to_string());
+        text = format!("len = set 16\n{}", text);
+        let expect_len;
+        if variant == 0 {
+            text.push_str(&format!("s = substring ${{s}} 0 {}\n", n));
+            expect_len = n;
+        } else {
+            let half = n / 2;
+            text.push_str(&format!("h1 = substring ${{s}} 0 {}\nh2 = substring ${{s}} 0 {}\ns = set ${{h1}}é${{h2}}\n", half.saturating_sub(1), n - half - 1));
+            expect_len = n;
+        }
+        text.push_str(&format!(
+            "f = set \"{d}/big.txt\"\ng = set \"{d}/copy.txt\"\nh = set \"{d}/moved.txt\"\nw = writefile ${{f}} ${{s}}\nr = readfile ${{f}}\nsame = equals ${{r}} ${{s}}\nrl = length ${{r}}\nsize = get_file_size ${{f}}\nc = cp ${{f}} ${{g}}\nr2 = readfile ${{g}}\nsame2 = equals ${{r2}} ${{s}}\nap = appendfile ${{f}} tail\nsize2 = get_file_size ${{f}}\nr3 = readfile ${{f}}\nsame3 = equals ${{r3}} ${{s}}tail\nm = mv ${{g}} ${{h}}\nr4 = readfile ${{h}}\nsame4 = equals ${{r4}} ${{s}}\ngone = is_path_exists ${{g}}\nover = writefile ${{f}} short\nsize3 = get_file_size ${{f}}\nrm ${{f}}\nrm ${{h}}\ns = set done\nr = set done\nr2 = set done\nr3 = set done\nr4 = set done\nh1 = set done\nh2 = set done",
+            d = d
+        ));
+        crate::util::scale_case_totals(
+            totals,
+            &format!("big-content bytes {} variant {}", n, variant),
+            &text,
+            &[
+                ("w", Some("true".into())),
+                ("same", Some("true".into())),
+                ("rl", Some(expect_len.to_string())),
+                ("size", Some(expect_len.to_string())),
+                ("c", Some("true".into())),
+                ("same2", Some("true".into())),
+                ("size2", Some((expect_len + 4).to_string())),
+                ("same3", Some("true".into())),
+                ("same4", Some("true".into())),
+                ("gone", Some("false".into())),
+                ("size3", Some("5".into())),
+            ],
+        );
+    }
+    let _ = std::fs::remove_dir_all(&dir);
+}
+
 pub fn replay(case: &Value) -> Result<String, String> {
+    if let Some(r) = crate::util::scale_replay(case) {
+        return r;
+    }
     let sys = C18::new(Tier::Thorough);
     let mut s = sys.new_impl();
     let mut m = sys.init_model();
@@ -625,7 +677,7 @@ pub fn replay(case: &Value) -> Result<String, String> {
     Ok(out.join("\n").replace(&d, "<scratch>"))
 }
 
-pub const RULE: &str = "explicit-state breadth-first search from the empty directory to a fixpoint: writefile / appendfile with 3 contents, write/read binary file, readfile, touch, mkdir, cp and mv for every ordered pair of paths, rm, rm -r, rmdir, is_path_exists, is_file, is_dir, get_file_size and a recursive glob_array listing, over the paths {a.txt, d, d/b.txt, (d/e/c.txt,) 's p/ü.txt'} and the directories d/e and 's p'; operations that would exceed the entry or size bound are disabled; operations the documentation does not fix in the current state (directory sources of cp/mv, mv onto itself, mv to a missing extension-less path, touch on a directory) are not generated. Each transition materialises the tree in a fresh scratch directory, runs the real command with absolute paths, snapshots the directory and compares output and the complete tree with the model (a failing operation must leave the tree unchanged). basename / dirname / join_path are swept separately (they do not depend on the tree). evaluations = transitions; distinct_nontrivial = distinct trees";
+pub const RULE: &str = "explicit-state breadth-first search from the empty directory to a fixpoint: writefile / appendfile with 3 contents, write/read binary file, readfile, touch, mkdir, cp and mv for every ordered pair of paths, rm, rm -r, rmdir, is_path_exists, is_file, is_dir, get_file_size and a recursive glob_array listing, over the paths {a.txt, d, d/b.txt, (d/e/c.txt,) 's p/ü.txt'} and the directories d/e and 's p'; operations that would exceed the entry or size bound are disabled; operations the documentation does not fix in the current state (directory sources of cp/mv, mv onto itself, mv to a missing extension-less path, touch on a directory) are not generated. Each transition materialises the tree in a fresh scratch directory, runs the real command with absolute paths, snapshots the directory and compares output and the complete tree with the model (a failing operation must leave the tree unchanged). basename / dirname / join_path are swept separately (they do not depend on the tree). evaluations = transitions; distinct_nontrivial = distinct trees. Scale cases: write / read / size / cp / append / mv / overwrite with contents of 4095..65537 bytes (thorough: up to 5 MB), plain and with a two-byte character across the middle";
 pub const ASSUMPTIONS: &[&str] = &["the scratch directory is on tmpfs (/dev/shm) or a local file system without symlinks, permissions left at their defaults", "the output of rm on a missing path and of cp onto itself is not compared (only the tree)"];
 pub const EXHAUSTIVE: bool = true;
 pub const WALL_CAP_S: (u64, u64) = (58, 1500);
